@@ -428,3 +428,39 @@ def run_batch_scenario(idx, sc, texts):
         return problems, False, events
     finally:
         shutil.rmtree(root, ignore_errors=True)
+
+
+# ------------------------------------------------------------------------------------------------ C03 through the CLI
+
+def run_idem_scenario(idx, sc):
+    """sc: {text, option, codec, bom}: a file is formatted in place; --mode=check must then accept it and a second in-place run
+    must not rewrite it"""
+    root = tempfile.mkdtemp(prefix=f"i{idx}_", dir=CLI_ROOT)
+    problems = []
+    try:
+        try:
+            inp = bytes(sc["bom"]) + sc["text"].encode(sc["codec"])
+        except UnicodeEncodeError:
+            return [], True
+        p = os.path.join(root, "idem.pas")
+        with open(p, "wb") as fh:
+            fh.write(inp)
+        args = ["-C", f"encoding={sc['option']}"] + [a for kv in sc.get("cfg", {}).items() for a in ("-C", f"{kv[0]}={kv[1]}")]
+        rc, out, err = run_bin(args + [p], root)
+        what = f"encoding={sc['option']} bom={sc['bom']} cfg={sc.get('cfg')} text={sc['text'][:80]!r}"
+        if rc != 0:
+            return [], True
+        first = open(p, "rb").read()
+        st = (os.stat(p).st_mtime_ns, os.stat(p).st_ino)
+        rc2, out2, err2 = run_bin(args + ["--mode", "check", p], root)
+        if rc2 != 0:
+            problems.append({"clause": "check_accepts_own_output", "detail": f"--mode=check rejects the file pasfmt has just written ({what}): {err2[-200:].decode(errors='replace')}"})
+        rc3, out3, err3 = run_bin(args + [p], root)
+        second = open(p, "rb").read()
+        if second != first:
+            problems.append({"clause": "second_run_rewrites", "detail": f"a second in-place run changed the file ({what})"})
+        elif (os.stat(p).st_mtime_ns, os.stat(p).st_ino) != st:
+            problems.append({"clause": "second_run_rewrites", "detail": f"a second in-place run rewrote the (identical) file ({what})"})
+        return problems, False
+    finally:
+        shutil.rmtree(root, ignore_errors=True)
